@@ -386,7 +386,17 @@ fn env_of(s: &S) -> Result<MarkerEnvironment, String> {
 }
 
 fn extras_of(s: &S) -> Vec<ExtraName> {
-    s.list().iter().map(|x| ExtraName::from_str(&x.string()).expect("harness: extra name")).collect()
+    // "new:Name" builds the extra with the owned constructor ExtraName::new (as Requirement parsing does for `pkg[Name]`)
+    s.list()
+        .iter()
+        .map(|x| {
+            let t = x.string();
+            match t.strip_prefix("new:") {
+                Some(n) => ExtraName::new(n.to_string()).expect("harness: extra name"),
+                None => ExtraName::from_str(&t).expect("harness: extra name"),
+            }
+        })
+        .collect()
 }
 
 fn bound_of(s: &S) -> Bound<Version> {
@@ -681,7 +691,10 @@ impl St {
                     std::cmp::Ordering::Equal => "Eq",
                     std::cmp::Ordering::Greater => "Gt",
                 };
-                S::tag("ok", vec![S::bool(a == b), S::a(c), S::bool(h(a) == h(b))])
+                // PartialOrd and the comparison operators must be the order Ord gives
+                let po = a.partial_cmp(b) == Some(a.cmp(b)) && (a < b) == (a.cmp(b) == std::cmp::Ordering::Less) && (a > b) == (a.cmp(b) == std::cmp::Ordering::Greater)
+                    && (a <= b) == (a.cmp(b) != std::cmp::Ordering::Greater);
+                S::tag("ok", vec![S::bool(a == b), S::a(c), S::bool(h(a) == h(b)), S::bool(po)])
             }
             "eval" => {
                 let a = &self.regs[l[1].idx()];
@@ -991,7 +1004,8 @@ impl St {
                             }
                             _ => S::a("none"),
                         };
-                        S::tag("ok", vec![S::bool(a == b), S::a(c(a.cmp(&b))), S::a(c(b.cmp(&a))), S::bool(h(&a) == h(&b)), urls])
+                        let po = a.partial_cmp(&b) == Some(a.cmp(&b)) && (a < b) == (a.cmp(&b) == std::cmp::Ordering::Less);
+                        S::tag("ok", vec![S::bool(a == b), S::a(c(a.cmp(&b))), S::a(c(b.cmp(&a))), S::bool(h(&a) == h(&b)), urls, S::bool(po)])
                     }
                     _ => S::a("err"),
                 }
@@ -1028,12 +1042,13 @@ impl St {
                 }
                 // requires-python simplification / complexification and extras restriction of every marker, for four lower bounds
                 let lows: Vec<Version> = (0..4u64).map(|b| Version::new([3, 6 + b])).collect();
-                let ab: Vec<ExtraName> = vec![ExtraName::from_str("a").unwrap(), ExtraName::from_str("b").unwrap()];
-                let mut expected2: Vec<(Vec<MarkerTree>, Vec<MarkerTree>, MarkerTree)> = Vec::new();
+                // every thread restricts with its own set of active extras (thread t uses set t % 4)
+                let ab: Vec<Vec<ExtraName>> = [vec!["a", "b"], vec!["a"], vec!["b"], vec!["c", "a"]].iter().map(|ns| ns.iter().map(|n| ExtraName::from_str(n).unwrap()).collect()).collect();
+                let mut expected2: Vec<(Vec<MarkerTree>, Vec<MarkerTree>, Vec<MarkerTree>)> = Vec::new();
                 for j in 0..k {
                     let c: Vec<MarkerTree> = lows.iter().map(|v| trees[j].clone().complexify_python_versions(Bound::Included(v), Bound::Unbounded)).collect();
                     let s: Vec<MarkerTree> = lows.iter().map(|v| trees[j].clone().simplify_python_versions(Bound::Included(v), Bound::Unbounded)).collect();
-                    expected2.push((c, s, trees[j].clone().simplify_extras(&ab)));
+                    expected2.push((c, s, ab.iter().map(|e| trees[j].clone().simplify_extras(e)).collect()));
                 }
                 let expected2 = std::sync::Arc::new(expected2);
                 let lows = std::sync::Arc::new(lows);
@@ -1089,11 +1104,11 @@ impl St {
                                     let b = (it / 32) % lows.len();
                                     let c = trees[j].clone().complexify_python_versions(Bound::Included(&lows[b]), Bound::Unbounded);
                                     let s = trees[j].clone().simplify_python_versions(Bound::Included(&lows[b]), Bound::Unbounded);
-                                    let e = trees[j].clone().simplify_extras(&ab);
+                                    let e = trees[j].clone().simplify_extras(&ab[t % ab.len()]);
                                     let fresh = Version::new([3, 100 + (t as u64) * 10_000_000 + it as u64]);
                                     let f = MarkerTree::TRUE.complexify_python_versions(Bound::Included(&fresh), Bound::Unbounded);
                                     let f_ok = f.try_to_string() == Some(format!("python_full_version >= '{}'", fresh));
-                                    if c != expected2[j].0[b] || s != expected2[j].1[b] || e != expected2[j].2 || !f_ok {
+                                    if c != expected2[j].0[b] || s != expected2[j].1[b] || e != expected2[j].2[t % ab.len()] || !f_ok {
                                         bad += 1;
                                         if first.is_none() {
                                             first = Some((j, format!("complexify {:?} / simplify {:?} / simplify_extras {:?} / TRUE complexified to >= {}: {:?}", c.try_to_string(), s.try_to_string(), e.try_to_string(), fresh, f.try_to_string())));
